@@ -157,6 +157,11 @@ def _check(prog, rep):
             plen = poly(("call", "str::len", (prefix,)))
             from ..poly import Poly
             lt = False
+            # the indent the prefix is compared with must be the indent as it is at that point of the path: the
+            # narrowed slice &prefix[..i] if the char comparison found a mismatch on this path, else the old indent
+            # (an earlier copy of the indent would undo the narrowing)
+            mismatch = any(a[0] == "cmp" and a[1] == "Eq" and not pol and a[2][0] != "int" and a[3][0] != "int"
+                           for a, pol in tr.facts)
             for k, p in nfs:
                 if k != "ge0":
                     continue
@@ -164,7 +169,10 @@ def _check(prog, rep):
                 if len(q.m) == 1:
                     (mon, c), = q.m.items()
                     if c == 1 and len(mon) == 1 and mon[0][0] == "call" and mon[0][1] == "str::len":
-                        lt = True
+                        X = mon[0][2][0]
+                        narrowed = X[0] == "call" and X[1] == "Index::index" and X[2][0] == prefix and range_parts(X[2][1])[0] == "to"
+                        if (mismatch and narrowed) or (not mismatch and X == SI):
+                            lt = True
             r5.check(lt, "shorter-prefix", "the whole prefix replaces the indent only when it is shorter", "prefix.len() < indent.len()",
                      "the subsequent indent is replaced by the line's prefix without prefix.len() < subsequent_indent.len() on the path", site=site)
             continue
